@@ -6,6 +6,7 @@ import (
 	"fmt"
 	"os"
 	"path/filepath"
+	"regexp"
 	"runtime"
 	"sort"
 	"strconv"
@@ -90,12 +91,49 @@ func buildOverlay() (map[string][]byte, error) {
 	return ov, nil
 }
 
+// droppedHarness: harness names whose source file was left out because it no longer compiles
+// against the tree under check (a lemma harness that calls an unexported function whose name or
+// signature was changed).  Never non-empty on the unchanged tree.
+var droppedHarness = map[string]string{}
+
+var registerRe = regexp.MustCompile(`vRegister\("([^"]+)"`)
+
 func loadProgram() (*Program, error) {
-	t0 := time.Now()
 	ov, err := buildOverlay()
 	if err != nil {
 		return nil, err
 	}
+	for attempt := 0; ; attempt++ {
+		P, bad, err := loadProgramWith(ov)
+		if err == nil {
+			return P, nil
+		}
+		// retry without the harness files the errors point into (at most a few rounds); the
+		// harnesses they register are reported as unavailable, the others still decide the property
+		progress := false
+		if attempt < 4 {
+			for f := range bad {
+				if src, ok := ov[f]; ok && strings.Contains(filepath.Base(f), "zz_verif_") && !strings.HasSuffix(f, "zz_verif_intrinsics.go") {
+					for _, m := range registerRe.FindAllStringSubmatch(string(src), -1) {
+						droppedHarness[m[1]] = filepath.Base(f)
+					}
+					delete(ov, f)
+					progress = true
+				}
+			}
+		}
+		if !progress {
+			return nil, err
+		}
+		// native-only model-validation tests reference loader internals too: not needed for replays
+		for k := range nativeOnly {
+			delete(nativeOnly, k)
+		}
+	}
+}
+
+func loadProgramWith(ov map[string][]byte) (*Program, map[string]bool, error) {
+	t0 := time.Now()
 	cfg := &packages.Config{
 		Mode:       packages.LoadAllSyntax,
 		Dir:        repoDir,
@@ -109,19 +147,23 @@ func loadProgram() (*Program, error) {
 	}
 	pkgs, err := packages.Load(cfg, pats...)
 	if err != nil {
-		return nil, err
+		return nil, nil, err
 	}
 	nerr := 0
+	bad := map[string]bool{}
 	packages.Visit(pkgs, nil, func(p *packages.Package) {
 		for _, e := range p.Errors {
 			if strings.HasPrefix(p.PkgPath, modPath) {
 				fmt.Fprintf(os.Stderr, "load error: %s: %v\n", p.PkgPath, e)
 				nerr++
+				if i := strings.Index(e.Pos, ".go:"); i > 0 {
+					bad[e.Pos[:i+3]] = true
+				}
 			}
 		}
 	})
 	if nerr > 0 {
-		return nil, fmt.Errorf("%d errors loading /repo packages (does the working tree compile?)", nerr)
+		return nil, bad, fmt.Errorf("%d errors loading /repo packages (does the working tree compile?)", nerr)
 	}
 	prog, spkgs := ssautil.AllPackages(pkgs, ssa.InstantiateGenerics)
 	prog.Build()
@@ -132,7 +174,7 @@ func loadProgram() (*Program, error) {
 		}
 	}
 	P.loadS = time.Since(t0).Seconds()
-	return P, nil
+	return P, nil, nil
 }
 
 // runInit executes the package initialisers (allow-listed packages only) on a fresh machine.
